@@ -135,5 +135,10 @@ func (b *batch) Commit(ctx context.Context) error {
 		}
 	}
 
-	return b.txn.Commit()
+	err := b.txn.Commit()
+	if err == badger.ErrConflict {
+		// a key read by a condition of this batch has been modified concurrently
+		return storage.ErrCASFailed
+	}
+	return err
 }
